@@ -51,6 +51,57 @@ def run(repo: Repo, chk: Check):
     chk.guarded(cache_values, repo, chk, "R10.f")
 
 
+def _occurs(sep, x, guards, depth=0):
+    """Do the guards (list of (test, polarity), already split over and/or/not) show that the string constant *sep* occurs in
+    the expression *x*?"""
+    if depth > 3 or not isinstance(sep, str) or not sep:
+        return False
+    xt = norm(x)
+    norm_guards = []
+    for t, p in guards:
+        # 'a not in b' is False  ==  'a in b' is True;  'not e' is False == e is True
+        if isinstance(t, ast.Compare) and len(t.ops) == 1 and isinstance(t.ops[0], ast.NotIn):
+            t, p = ast.Compare(left=t.left, ops=[ast.In()], comparators=t.comparators), not p
+        if isinstance(t, ast.UnaryOp) and isinstance(t.op, ast.Not):
+            t, p = t.operand, not p
+        norm_guards.append((t, p))
+    guards = norm_guards
+    for t, p in guards:
+        if not p:
+            continue
+        if isinstance(t, ast.Compare) and len(t.ops) == 1 and isinstance(t.ops[0], ast.In) and isinstance(t.left, ast.Constant) and isinstance(t.left.value, str) \
+                and sep in t.left.value and norm(t.comparators[0]) == xt and t.left.value == sep:
+            return True
+        if isinstance(t, ast.Call) and isinstance(t.func, ast.Attribute) and t.func.attr in ("startswith", "endswith") and norm(t.func.value) == xt and t.args \
+                and isinstance(t.args[0], ast.Constant) and isinstance(t.args[0].value, str) and sep in t.args[0].value:
+            return True
+    # x = Y.split(s1, 1)[1] with Y.startswith(s1), s1 one character that sep does not begin with: x is Y without its first
+    # character, and an occurrence of sep in Y cannot start at that character
+    if isinstance(x, ast.Subscript) and isinstance(x.slice, ast.Constant) and x.slice.value == 1 and isinstance(x.value, ast.Call) and isinstance(x.value.func, ast.Attribute) \
+            and x.value.func.attr == "split" and len(x.value.args) == 2 and isinstance(x.value.args[0], ast.Constant) and isinstance(x.value.args[0].value, str) \
+            and isinstance(x.value.args[1], ast.Constant) and x.value.args[1].value == 1:
+        s1, y = x.value.args[0].value, x.value.func.value
+        if len(s1) == 1 and sep[0] != s1:
+            starts = any(p and isinstance(t, ast.Call) and isinstance(t.func, ast.Attribute) and t.func.attr == "startswith" and norm(t.func.value) == norm(y) and t.args
+                         and isinstance(t.args[0], ast.Constant) and t.args[0].value == s1 for t, p in guards)
+            if starts and _occurs(sep, y, guards, depth + 1):
+                return True
+    return False
+
+
+def _split_index_safe(sub, guards):
+    v = sub.value
+    if not (isinstance(v, ast.Call) and isinstance(v.func, ast.Attribute) and v.args and isinstance(v.args[0], ast.Constant) and isinstance(v.args[0].value, str)):
+        return False
+    if v.func.attr in ("partition", "rpartition") and sub.slice.value in (0, 1, 2):
+        return True       # always three parts
+    if v.func.attr in ("split", "rsplit"):
+        if sub.slice.value == 0:
+            return True   # split always yields at least one part
+        return _occurs(v.args[0].value, v.func.value, guards)
+    return False
+
+
 # ---------------------------------------------------------------------- R10.a
 def r10a(repo, chk):
     cm = repo.mod("compiler")
@@ -116,6 +167,9 @@ def r10a(repo, chk):
                                 ok = True
                             if isinstance(t.ops[0], ast.GtE) and p and c.slice.value < k:
                                 ok = True
+                if not ok and isinstance(c.slice, ast.Constant) and c.slice.value in (0, 1):
+                    # <X>.split(sep, 1)[1] / .partition(sep)[..]: fine when the tests on the path show that sep occurs in X
+                    ok = _split_index_safe(c, [(t, p) for t, p in cfg.guards(n.id) if isinstance(t, ast.expr)])
                 elif isinstance(c.slice, ast.Constant) and c.slice.value == "":
                     par = getattr(c, "parent", None)
                     ok = isinstance(par, ast.IfExp) and (par.body is c and norm(par.test).startswith("isinstance(") or
